@@ -25,6 +25,18 @@ def sh(cmd, **kw):
     return p.returncode, p.stdout
 
 
+def replay_sigs(out, failing_only=False):
+    sigs = []
+    for l in out.splitlines():
+        if l.startswith("VIOLATION") and not (failing_only and "no-failing-input-found" in l):
+            try:
+                r = json.loads(Path(l.split("replay=")[1].split()[0]).read_text())
+                sigs.append(str(r.get("signature", r.get("kind"))))
+            except Exception:
+                sigs.append("?")
+    return sigs
+
+
 def verify(name, tier="quick", run_tests=True, keep=False, base="HEAD"):
     d = SEEDED / name
     meta = json.loads((d / "meta.json").read_text())
@@ -44,6 +56,14 @@ def verify(name, tier="quick", run_tests=True, keep=False, base="HEAD"):
         sh(f"{KIT}/build_ext.sh {wt}")
         rc0, o0 = sh(f"/venv/bin/python {d}/demo.py", env=env, cwd="/tmp", timeout=900)
         res["demo_clean_exit"] = rc0
+        base_sigs = set()
+        if SEEDED.name == "rewrites" and base != "HEAD":
+            # an older base lacks later fix: commits, so the check may rightly report those defects there: a rewrite
+            # is a false alarm only for failing inputs that the unpatched base does not produce
+            rcb, outb = sh(f"./check {pid} --tier {tier}", cwd=ROOT, env=dict(os.environ, HYDROVERIF_REPO=str(wt)), timeout=7200)
+            base_sigs = set(replay_sigs(outb))
+            res["base_check_exit"] = rcb
+            res["base_signatures"] = sorted(base_sigs)
         rc, out = sh(f"git -C {wt} apply --whitespace=nowarn {d}/patch.diff")
         if rc != 0:
             rc, out = sh(f"git -C {wt} apply --3way --whitespace=nowarn {d}/patch.diff")
@@ -67,7 +87,12 @@ def verify(name, tier="quick", run_tests=True, keep=False, base="HEAD"):
             res["violation_lines"] = vio[:5]
             res["detected"] = rc == 1 and bool(vio)
             res["with_failing_input"] = any("no-failing-input-found" not in l for l in vio)
-            res["false_alarm"] = bool(res["with_failing_input"]) if SEEDED.name == "rewrites" else None
+            if SEEDED.name == "rewrites":
+                new = [x for x in replay_sigs(out, failing_only=True) if x not in base_sigs]
+                res["new_failing_signatures"] = new
+                res["false_alarm"] = bool(new) if base_sigs or base != "HEAD" else bool(res["with_failing_input"])
+            else:
+                res["false_alarm"] = None
             res["check_tail"] = out[-400:]
             # keep the first replay's headline for the record
             for l in vio[:1]:
